@@ -245,6 +245,147 @@ mod driver {
         })
     }
 
+    /// C02 (reply merge): find_closest_nodes_local / handle_lookup_request on a manager whose routing table (local id 0) and connected-peer book are the model's
+    pub fn closest_local(case: &Value) -> Value {
+        use crate::dht::core_engine::{NodeCapacity, NodeId, NodeInfo};
+        let rt = tokio::runtime::Builder::new_multi_thread().worker_threads(2).enable_all().build().unwrap();
+        rt.block_on(async {
+            let params = case.get("__params").cloned().unwrap_or(Value::Null);
+            let lookup = params.get("lookup").and_then(|v| v.as_bool()).unwrap_or(false);
+            let t = params.get("t").and_then(|v| v.as_u64());
+            let mut mgr = manager(&s(un(case, "local.peer_id"))).await;
+            mgr.local_dht_key = DhtKey::from_bytes([0u8; 32]);
+            mgr.local_dht_key_hex = hex::encode([0u8; 32]);
+            mgr.local_transport_peer_id = if un(case, "local.transport_id_some") == 1 { Some(s(un(case, "local.transport_id"))) } else { None };
+            // id with its first differing bit (from the all-zero local id) at position j, remaining bits from the case
+            let id_in_bucket = |name: &str, j: usize| -> [u8; 32] {
+                let mut out = [0u8; 32];
+                for byte in 0..32 {
+                    let raw = un(case, &format!("{name}.{byte}")) as u8;
+                    let (lo, hi) = (byte * 8, byte * 8 + 7);
+                    if hi < j {
+                        out[byte] = 0;
+                    } else if lo > j {
+                        out[byte] = raw;
+                    } else {
+                        let k = j - lo;
+                        let keep: u8 = ((1u16 << (7 - k)) - 1) as u8;
+                        out[byte] = (raw & keep) | (1u8 << (7 - k));
+                    }
+                }
+                out
+            };
+            let mut engine = crate::dht::core_engine::DhtCoreEngine::new(NodeId::from_bytes([0u8; 32])).expect("engine");
+            let mut boot = Vec::new();
+            if let Some(layout) = params.get("layout").and_then(|v| v.as_array()) {
+                for e in layout {
+                    let (j, cap) = match e {
+                        Value::Array(a) => (a[0].as_u64().unwrap_or(0) as usize, a[1].as_u64().unwrap_or(1) as usize),
+                        v => (v.as_u64().unwrap_or(0) as usize, 1),
+                    };
+                    let ln = (un(case, &format!("len{j}")) as usize).min(cap);
+                    for sl in 0..ln {
+                        boot.push(NodeInfo {
+                            id: NodeId::from_bytes(id_in_bucket(&format!("b{j}s{sl}"), j)),
+                            address: format!("127.0.0.1:{}", 4000 + j * 8 + sl),
+                            last_seen: SystemTime::now(),
+                            capacity: NodeCapacity::default(),
+                        });
+                    }
+                }
+            }
+            engine.join_network(boot).await.expect("join");
+            mgr.dht = Arc::new(RwLock::new(engine));
+            {
+                let mut peers = mgr.dht_peers.write().await;
+                for (n, label) in ["pa", "pb"].iter().enumerate() {
+                    if un(case, &format!("P.peers@{label}.present")) == 0 {
+                        continue;
+                    }
+                    let l = |i: usize| un(case, &format!("P.peers@{label}.v{i}"));
+                    let mut key = [0u8; 32];
+                    for (i, b) in key.iter_mut().enumerate() {
+                        *b = l(1 + i) as u8;
+                    }
+                    let addresses: Vec<Multiaddr> = if l(33) >= 1 {
+                        vec![format!("127.0.0.1:{}", 5000 + n).parse().expect("address")]
+                    } else {
+                        Vec::new()
+                    };
+                    let pid = s(un(case, label));
+                    peers.insert(pid.clone(), DhtPeerInfo {
+                        peer_id: pid,
+                        dht_key: key,
+                        addresses,
+                        last_seen: Instant::now(),
+                        is_connected: l(37) == 1,
+                        avg_latency: Duration::from_millis(50),
+                        reliability_score: 1.0,
+                    });
+                }
+            }
+            let key: Key = match t {
+                Some(t) => id_in_bucket("key", t as usize),
+                None => [0u8; 32],
+            };
+            let (nodes, shape_ok) = if lookup {
+                match mgr.handle_lookup_request(&key, &s(un(case, "requester")), LookupRequestKind::FindNode).await {
+                    Ok(DhtNetworkResult::NodesFound { nodes, .. }) => {
+                        let ok = !nodes.is_empty();
+                        (nodes, ok)
+                    }
+                    Ok(DhtNetworkResult::GetNotFound { .. }) => (Vec::new(), true),
+                    _ => (Vec::new(), false),
+                }
+            } else {
+                (mgr.find_closest_nodes_local(&key, un(case, "count") as usize).await, true)
+            };
+            let result: Vec<Value> = nodes
+                .iter()
+                .map(|n| {
+                    let k: Vec<u8> = match &n.cached_dht_key {
+                        Some(k) => k.as_bytes().to_vec(),
+                        None => crate::dht::derive_dht_key_from_peer_id(&n.peer_id).to_vec(),
+                    };
+                    let is_hex = n.peer_id == hex::encode(&k);
+                    json!({"key": k, "name_is_hex": is_hex, "name": if is_hex { 0 } else { sid(&n.peer_id) }, "keyed": n.cached_dht_key.is_some()})
+                })
+                .collect();
+            json!({"result": result, "shape_ok": shape_ok})
+        })
+    }
+
+    /// C02 (reply cap): a node that knows 40 peers answers a remote lookup; how many does it name?
+    pub fn lookup_cap(case: &Value) -> Value {
+        use crate::dht::core_engine::{NodeCapacity, NodeId, NodeInfo};
+        let rt = tokio::runtime::Builder::new_multi_thread().worker_threads(2).enable_all().build().unwrap();
+        rt.block_on(async {
+            let mut mgr = manager(&s(un(case, "local.peer_id"))).await;
+            let mut engine = crate::dht::core_engine::DhtCoreEngine::new(NodeId::from_bytes([0u8; 32])).expect("engine");
+            let mut boot = Vec::new();
+            for j in 0..40usize {
+                // five peers in each of the buckets 0..8 (ids 1xxxxxxx, 01xxxxxx, ...)
+                let bucket = j % 8;
+                let mut id = [0u8; 32];
+                id[0] = 0x80u8 >> bucket;
+                id[31] = j as u8 + 1;
+                boot.push(NodeInfo { id: NodeId::from_bytes(id), address: format!("127.0.0.1:{}", 4000 + j), last_seen: SystemTime::now(), capacity: NodeCapacity::default() });
+            }
+            engine.join_network(boot).await.expect("join");
+            mgr.dht = Arc::new(RwLock::new(engine));
+            let kind = match un(case, "kind") {
+                0 => LookupRequestKind::FindNode,
+                1 => LookupRequestKind::FindValue,
+                _ => LookupRequestKind::Get,
+            };
+            let n = match mgr.handle_lookup_request(&[0xffu8; 32], &s(un(case, "requester")), kind).await {
+                Ok(DhtNetworkResult::NodesFound { nodes, .. }) => nodes.len(),
+                _ => 0,
+            };
+            json!({"reply_len": n})
+        })
+    }
+
 }
 
 #[cfg(all(test, verif_replay))]
@@ -256,6 +397,8 @@ fn verif_replay_entry() {
         "dht_response" => driver::dht_response(&case),
         "dht_send" => driver::dht_send(&case),
         "dht_message" => driver::dht_message(&case),
+        "closest_local" => driver::closest_local(&case),
+        "lookup_cap" => driver::lookup_cap(&case),
         other => panic!("unknown driver {other}"),
     };
     println!("VERIF-OBS {}", obs);
